@@ -29,6 +29,7 @@ type Config struct {
 	Faulty       bool         `json:"faulty,omitempty"`   // failing faults may be attached to ops
 	CrashAll     bool         `json:"crashAll,omitempty"` // take a crash snapshot at every I/O boundary (C15)
 	CrashFrom    int          `json:"crashFrom,omitempty"` // crash snapshots only for operations with at least this index
+	BoltMmap     bool         `json:"boltMmap,omitempty"`  // open the bolt file with a large initial mmap (no remap on growth)
 	Buckets      []string     `json:"buckets,omitempty"`  // buckets created by setup
 	Versioned    bool         `json:"versioned,omitempty"`
 	Mode         string       `json:"mode,omitempty"` // seq (model-checked) | lin (C07) | raw (C09)
